@@ -46,7 +46,7 @@ class Diagonalization(Function):
 
         mins = torch.diagonal(t_mat, dim1=-1, dim2=-2).min(dim=-1, keepdim=True)[0]
         jitter_val = settings.tridiagonal_jitter.value()
-        jitter_mat = torch.diag_embed(jitter_val * mins).expand_as(t_mat)
+        jitter_mat = torch.diag_embed((jitter_val * mins).expand(*t_mat.shape[:-1]))
         eigenvalues, eigenvectors = lanczos.lanczos_tridiag_to_diag(t_mat + jitter_mat)
 
         # Get orthogonal matrix and eigenvalues
